@@ -73,6 +73,17 @@ def generate_big(rng, tier):
     pins = list(big["pins"])
     for _ in range(24):
         pins.append(refsem.gen_witness(rng, decls))
+    # one-hot and one-cold assignments for EVERY boolean (evaluation only, so they are cheap): a wide
+    # and / or / count node that loses a single operand differs from the reference only there
+    lowest = [False if d["t"] == "b" else d["lo"] for d in decls]
+    highest = [True if d["t"] == "b" else d["hi"] for d in decls]
+    w = big["pins"][0]
+    for i, d in enumerate(decls):
+        if d["t"] == "b":
+            for base in (lowest, highest, w):
+                p = list(base)
+                p[i] = not p[i]
+                pins.append(p)
     ops = []
     half = max(1, len(cs) // 2)
     if cs[:half]:
